@@ -363,11 +363,7 @@ func checkDownTemplates(c *Ctx) {
 }
 
 func checkOneTemplate(c *Ctx, fmtr, nameT, text string, pos token.Pos) {
-	funcs := map[string]any{"now": "", "rev": "", "inc": "", "upper": "", "directives": ""}
-	for _, b := range strings.Fields("and call html index slice js len not or print printf println urlquery eq ge gt le lt ne") {
-		funcs[b] = ""
-	}
-	trees, err := parse.Parse("t", text, "{{", "}}", funcs)
+	trees, err := parse.Parse("t", text, "{{", "}}", templateFuncsMap(c))
 	if err != nil {
 		c.Check("R17c", fmtr+"|"+nameT+"|parses", pos, false, "template does not parse: %v", err)
 		return
@@ -412,7 +408,7 @@ func checkOneTemplate(c *Ctx, fmtr, nameT, text string, pos token.Pos) {
 			if strings.Contains(r.body.String(), ".ReverseStmts") {
 				// inner range over the statements
 				for _, r2 := range ranges {
-					if strings.Contains(r2.pipe, "$stmts") && strings.Contains(r2.body.String(), "printf") {
+					if strings.Contains(r2.pipe, "$stmts") && printsDot(trees, r2.body) {
 						revStmts++
 					}
 				}
@@ -654,4 +650,41 @@ func checkReverseNames(c *Ctx) {
 			})
 		})
 	}
+}
+
+// printsDot reports whether the list prints the range element: a printf/print action over `.`,
+// or a {{ template "x" . }} whose definition does.
+func printsDot(trees map[string]*parse.Tree, body *parse.ListNode) bool {
+	found := false
+	var walk func(n parse.Node, depth int)
+	walk = func(n parse.Node, depth int) {
+		switch x := n.(type) {
+		case *parse.ListNode:
+			if x == nil {
+				return
+			}
+			for _, k := range x.Nodes {
+				walk(k, depth)
+			}
+		case *parse.ActionNode:
+			s := x.String()
+			if strings.Contains(s, "print") && strings.Contains(s, " .") || s == "{{.}}" {
+				found = true
+			}
+		case *parse.IfNode:
+			walk(x.List, depth)
+			walk(x.ElseList, depth)
+		case *parse.WithNode:
+			walk(x.List, depth)
+			walk(x.ElseList, depth)
+		case *parse.TemplateNode:
+			if depth < 2 && x.Pipe != nil && strings.TrimSpace(x.Pipe.String()) == "." {
+				if t := trees[x.Name]; t != nil {
+					walk(t.Root, depth+1)
+				}
+			}
+		}
+	}
+	walk(body, 0)
+	return found
 }
